@@ -256,6 +256,14 @@ def lex_texts(kind, n, shard):
     if kind == 'lex':
         for text, l in X.shard_strings(LEX, n, shard):
             yield text, 'lexemes n=%d' % l
+    elif kind == 'literals':
+        # the literal corpus of C06 (quote runs and escapes in triple-quoted literals, prefixes, newline forms, concatenations): each is a valid
+        # expression statement whose whole tree is compared here
+        from . import c06
+        for gen in (c06.quote_run_cases, c06.prefix_cases, c06.newline_cases, c06.concat_cases):
+            for i, (g, t) in enumerate(gen('quick' if n == 0 else 'thorough')):
+                if i % 16 == shard:
+                    yield t, 'literal forms: ' + g
     elif kind == 'layout':
         from .. import relcheck
         for text, l in X.shard_strings(relcheck.LAYOUT_LEX, n, shard):
@@ -302,7 +310,7 @@ def run_lex_shard(args):
 
 
 def run_shard(args):
-    if args[0] in ('lex', 'hdr', 'layout'):
+    if args[0] in ('lex', 'hdr', 'layout', 'literals'):
         return run_lex_shard(args)
     paths, d, tier, start = args
     r = C.Result()
@@ -361,6 +369,7 @@ def run(tier, seed):
             jobs.append((g, d, tier, start))
     jobs += [('lex', LEX_N[tier], sh) for sh in X.prefix_shards(LEX, LEX_N[tier], 1 if tier == 'quick' else 2)]
     jobs += [('hdr', HDR_N[tier], sh) for sh in X.prefix_shards(HDR, HDR_N[tier], 2)]
+    jobs += [('literals', 0 if tier == 'quick' else 1, k) for k in range(16)]
     from .. import relcheck
     jobs += [('layout', LAYOUT_N[tier], sh) for sh in X.prefix_shards(relcheck.LAYOUT_LEX, LAYOUT_N[tier], 1)]
     reduced = set()
@@ -384,7 +393,7 @@ def run(tier, seed):
             '(names, numbers, strings, operators, keywords, six newline/continuation forms, tab, form feed, comment) that CPython accepts, in Module/Interactive/Expression mode; and every sequence of <=%d tokens of a %d-token header alphabet '
             '(brackets, colon, comma, lambda, if/else/as, match/case/type, walrus, star) placed in %d statement templates (a statement of its own, a match subject, a case pattern, an inline '
             'block body, after a semicolon); and every concatenation of <=%d lexemes of the 16-lexeme layout alphabet (indentation pieces, continuations, line breaks, comment, form feed, block '
-            'opener, brackets, BOM)' % (gref.n_alternatives(), d, LEX_N[tier], len(LEX), HDR_N[tier], len(HDR), len(HDR_TEMPLATES), LAYOUT_N[tier]))
+            'opener, brackets, BOM); and the literal-form corpus of C06 (quote runs/escapes in triple-quoted literals, prefixes, newline forms, concatenations)' % (gref.n_alternatives(), d, LEX_N[tier], len(LEX), HDR_N[tier], len(HDR), len(HDR_TEMPLATES), LAYOUT_N[tier]))
     return C.finish(PROP, tier, seed, t0, total, rule,
                     ['CPython 3.11 ast.parse(bytes) defines validity and the reference tree (interactive mode: the module-mode tree)',
                      'derive(Debug) is faithful; canonicalisers in vp/astcmp.py'], C.py_version())
